@@ -57,6 +57,30 @@ CHECKS = {
         "technique": "property-based testing (rapid), three-way differential: weighted engine vs default engine vs reference semantics, log-capture oracle for the detector",
         "assumptions": ["R-sem is the specification for object subjects", "the server-level fall-back is enabled as in production"],
     },
+    "C04": {
+        "runs": [_r("TestC04", 1000, 50000, qt=1500, tt=5000)],
+        "rule": "rapid draws a world (generator G), a split of its valid tuples into stored S and contextual X (<= 20), Check requests, a ListObjects "
+                "request, a ListUsers request and an Expand request. Metamorphic oracle: every query on (store=S, contextual=X) answers like the same "
+                "query on (store=S+X, no contextual tuples): Check (default engine behind query+iterator caches, weighted engine), BatchCheck, ListObjects "
+                "(classic, weighted, pipeline), ListUsers, Expand (trees equal up to the undocumented order of TTU computed usersets). Leak/persistence: on "
+                "the caching server the request is issued with X, without X (must answer for S alone per the reference semantics) and with X again; Read shows "
+                "exactly S afterwards. Non-trivial: X non-empty and some request's reference answer differs between S and S+X. Distinct: hash of the case.",
+        "level_text": "exploration: metamorphic relation stored<->contextual over all query APIs and engines on generated worlds and splits",
+        "technique": "property-based testing (rapid), metamorphic relation (split stored/contextual) + reference semantics for the no-leak part",
+        "assumptions": ["requests whose tuples have an unevaluable condition are skipped here (error-vs-answer is C01's business)",
+                        "keys of contextual tuples are disjoint from stored ones"],
+    },
+    "C07": {
+        "runs": [_r("TestC07", 600, 40000, qt=1500, tt=5000)],
+        "rule": "rapid draws a world (generator G) and a batch of 1-14 (thorough 1-50) items built from 1-4 base requests and near-duplicates: other "
+                "context, other contextual tuples, reversed contextual tuples (semantically equal), no context, or a contextual tuple that grants the request. "
+                "The batch runs on a cache-free and on a query-caching server. Oracle per correlation id: outcome satisfies the reference semantics and "
+                "equals a standalone Check; the result map has exactly the submitted ids. Non-trivial: two items with the same tuple key have different "
+                "reference outcomes and two items are semantically equal. Distinct: hash of the case.",
+        "level_text": "exploration: generated batches with deliberate near-duplicates against standalone Check and the reference semantics",
+        "technique": "property-based testing (rapid), differential (batch vs standalone) + reference semantics",
+        "assumptions": ["R-sem is the specification"],
+    },
     "C05": {
         "runs": [_r("TestC05", 3000, 160000)],
         "rule": "rapid draws a world (generator G) and 2-6 ListObjects calls: engine in {classic reverse expansion, its weighted-graph "
